@@ -75,8 +75,24 @@ func C10(e *Env) {
 	if gen == nil {
 		r.Undecide("R10.1", "internal/cmd/runner.StepCodeGenerator.Run", "anchor function not found")
 	}
+	var wHelper *ssa.Function
+	okSite := false
+	if gen != nil {
+		_, _, _, wHelper, okSite = writeSite(gen)
+	}
 	for _, w := range writes {
 		key := w.fnKey + " -> " + w.name
+		if w.fn == wHelper && wHelper != nil && w.name == "os.WriteFile" {
+			// the write helper of the code generator: only the generator may call it
+			callers := 0
+			for _, c := range calls {
+				if c.ins.Common().StaticCallee() == wHelper && c.fn != gen {
+					callers++
+				}
+			}
+			r.Check(callers == 0, "R10.1", key, "the one file write (in the code generator's own write helper, which nothing else calls)", e.P.Pos(w.ins.Pos()))
+			continue
+		}
 		if w.fn != gen {
 			r.Violate("R10.1", key, "file-mutating call outside the code-generator step", nil, e.P.Pos(w.ins.Pos()))
 			continue
@@ -87,16 +103,10 @@ func C10(e *Env) {
 		}
 		r.Hold("R10.1", key, "the one file write", e.P.Pos(w.ins.Pos()))
 	}
-	nw := 0
-	for _, w := range writes {
-		if w.fn == gen && w.name == "os.WriteFile" {
-			nw++
-		}
+	if gen != nil && !okSite {
+		r.Violate("R10.1", "internal/cmd/runner.StepCodeGenerator.Run#writes", "the code generator does not write the file through exactly one os.WriteFile (directly or in its own write helper)", nil)
 	}
-	if gen != nil && nw != 1 {
-		r.Violate("R10.1", "internal/cmd/runner.StepCodeGenerator.Run#writes", fmt.Sprintf("%d os.WriteFile calls in the code generator, expected exactly 1", nw), nil)
-	}
-	if gen != nil && nw == 1 {
+	if gen != nil && okSite {
 		c10Write(e, gen)
 	}
 
@@ -160,6 +170,49 @@ func findCalls(fn *ssa.Function, name string, anon bool) []ssa.CallInstruction {
 		}
 	}
 	return out
+}
+
+// ownerOfInvoke: when fn itself does not invoke `method` but exactly one helper of its package that it calls
+// (directly, or a function literal it runs) does so exactly once, the loop logic lives there: the rules
+// analyse that helper, provided fn hands the helper's error result on unchanged (returns it, or returns
+// what a call of the module's join helper makes of it).
+func ownerOfInvoke(fn *ssa.Function, method string) *ssa.Function {
+	if len(findInvokes(fn, method, false)) > 0 {
+		return fn
+	}
+	var owner *ssa.Function
+	var site ssa.CallInstruction
+	n := 0
+	for _, c := range callsIn(fn, false) {
+		var g *ssa.Function
+		if sc := c.Common().StaticCallee(); sc != nil {
+			g = sc
+		} else if mc, ok := c.Common().Value.(*ssa.MakeClosure); ok {
+			g, _ = mc.Fn.(*ssa.Function)
+		}
+		if g == nil || g == fn || len(g.Blocks) == 0 || rootFn(g).Pkg != fn.Pkg {
+			continue
+		}
+		if len(findInvokes(g, method, false)) == 1 {
+			owner, site = g, c
+			n++
+		}
+	}
+	if n != 1 || site.Value() == nil {
+		return fn
+	}
+	// the helper's result reaches fn's result
+	ts := taintFrom(fn, site.Value())
+	for _, b := range fn.Blocks {
+		if ret, ok := b.Instrs[len(b.Instrs)-1].(*ssa.Return); ok && b != fn.Recover {
+			for _, rv := range ret.Results {
+				if ts.has(rv) {
+					return owner
+				}
+			}
+		}
+	}
+	return fn
 }
 
 func findInvokes(fn *ssa.Function, method string, anon bool) []ssa.CallInstruction {
@@ -324,10 +377,75 @@ func failureEdgeBlock(fn *ssa.Function, errv ssa.Value) (*ssa.BasicBlock, bool) 
 	return nil, false
 }
 
+// writeSite: the one place where the code generator writes the file — an os.WriteFile call in gen itself, or
+// the call of a helper of the package (method or function) whose body is: one unconditional os.WriteFile
+// of its own parameters, whose error it returns. Returns the call in gen that stands for the write and
+// the path / data values as seen in gen.
+func writeSite(gen *ssa.Function) (site ssa.CallInstruction, path, data ssa.Value, helper *ssa.Function, ok bool) {
+	if ws := findCalls(gen, "os.WriteFile", false); len(ws) == 1 {
+		return ws[0], ws[0].Common().Args[0], ws[0].Common().Args[1], nil, true
+	} else if len(ws) > 1 {
+		return nil, nil, nil, nil, false
+	}
+	n := 0
+	for _, c := range callsIn(gen, false) {
+		g := c.Common().StaticCallee()
+		if g == nil || g.Pkg != gen.Pkg || len(g.Blocks) == 0 {
+			continue
+		}
+		ws := findCalls(g, "os.WriteFile", false)
+		if len(ws) != 1 || ws[0].Block() != g.Blocks[0] {
+			continue
+		}
+		w := ws[0]
+		// the helper returns the write's error on every path
+		werr := errOf(w)
+		al := errAliases(g, werr)
+		okRet := werr != nil
+		for _, b := range g.Blocks {
+			if ret, isRet := b.Instrs[len(b.Instrs)-1].(*ssa.Return); isRet && b != g.Recover {
+				if len(ret.Results) != 1 || !(al[ret.Results[0]] || isNilConst(ret.Results[0]) && successEdge(g, werr, ret)) {
+					okRet = false
+				}
+			}
+		}
+		if !okRet {
+			continue
+		}
+		// map the written path and data to the caller's values
+		actual := func(v ssa.Value) ssa.Value {
+			// through a string(...) / []byte(...) conversion of a parameter
+			for i := 0; i < 3; i++ {
+				switch x := v.(type) {
+				case *ssa.Convert:
+					v = x.X
+					continue
+				case *ssa.ChangeType:
+					v = x.X
+					continue
+				}
+				break
+			}
+			if prm, isP := v.(*ssa.Parameter); isP {
+				for i, q := range g.Params {
+					if q == prm && i < len(c.Common().Args) {
+						return c.Common().Args[i]
+					}
+				}
+			}
+			// a field of the receiver: the same field read in gen (resolved by the caller through fieldLoads)
+			return v
+		}
+		n++
+		site, path, data, helper = c, actual(w.Common().Args[0]), actual(w.Common().Args[1]), g
+	}
+	return site, path, data, helper, n == 1
+}
+
 func c10Write(e *Env, gen *ssa.Function) {
 	r := e.R
 	key := "internal/cmd/runner.StepCodeGenerator.Run"
-	w := findCalls(gen, "os.WriteFile", false)[0]
+	w, wPath, wData, wHelper, _ := writeSite(gen)
 	builds := findInvokes(gen, "Build", false)
 	if len(builds) != 1 {
 		r.Undecide("R10.2", key+"#build", fmt.Sprintf("%d calls of builder.Build, expected 1", len(builds)))
@@ -344,7 +462,7 @@ func c10Write(e *Env, gen *ssa.Function) {
 	r.Check(successEdge(gen, berr, w), "R10.2", key+"#write-after-build-success",
 		"os.WriteFile must be reachable only through the err == nil edge of builder.Build", pos)
 	ts := taintFrom(gen, bout)
-	r.Check(ts.has(w.Common().Args[1]), "R10.2", key+"#write-data-is-build-result",
+	r.Check(ts.has(wData), "R10.2", key+"#write-data-is-build-result",
 		"the bytes written must derive from the first result of builder.Build", pos)
 	// path derives from the receiver's outputFile field
 	var fieldLoads []ssa.Value
@@ -363,10 +481,29 @@ func c10Write(e *Env, gen *ssa.Function) {
 			}
 		}
 	}
+	// when the write lives in a method helper the path may be read from the receiver's field there
+	if wHelper != nil {
+		for _, blk := range wHelper.Blocks {
+			for _, ins := range blk.Instrs {
+				if fa, ok := ins.(*ssa.FieldAddr); ok && fieldName(fa) == "outputFile" {
+					for _, ref := range *fa.Referrers() {
+						if u, ok := ref.(*ssa.UnOp); ok && u.Op == token.MUL {
+							fieldLoads = append(fieldLoads, u)
+						}
+					}
+				}
+			}
+		}
+	}
 	pt := taintFrom(gen, fieldLoads...)
-	okPath := pt.has(w.Common().Args[0])
+	okPath := pt.has(wPath)
+	for _, fl := range fieldLoads {
+		if wPath == fl {
+			okPath = true
+		}
+	}
 	// and from nothing else: walk back through pure string functions
-	src := w.Common().Args[0]
+	src := wPath
 	for i := 0; i < 5; i++ {
 		if c, ok := src.(*ssa.Call); ok && len(c.Call.Args) == 1 && strings.HasPrefix(callName(&c.Call), "path/filepath.") {
 			src = c.Call.Args[0]
@@ -427,6 +564,7 @@ func stepLoopRule(e *Env, rule, rel, name, method string) {
 		r.Undecide(rule, key, "anchor function not found")
 		return
 	}
+	fn = ownerOfInvoke(fn, method)
 	inv := findInvokes(fn, method, false)
 	if len(inv) != 1 {
 		r.Undecide(rule, key, fmt.Sprintf("%d invocations of %s, expected 1", len(inv), method))
@@ -478,6 +616,7 @@ func c10RangeAll(e *Env, rule, rel, name string) {
 		e.R.Undecide(rule, key+"#range", "function not found")
 		return
 	}
+	fn = ownerOfInvoke(fn, "Run")
 	// the invoked step is steps[i] with i walking the whole slice upwards from 0 (a range statement, or a
 	// counted loop i := 0; i < len(steps); i++), steps being the receiver's field (directly or via a local)
 	found := false
@@ -496,6 +635,20 @@ func c10RangeAll(e *Env, rule, rel, name string) {
 		x := ia.X
 		// through a local copy of the slice
 		fromSteps := derivesFromField(x, "steps", 0)
+		if prm, isP := x.(*ssa.Parameter); isP && !fromSteps {
+			// the helper receives the slice: the caller passes the steps field
+			if orig := e.P.Func(rel, name); orig != nil {
+				for _, c := range callsIn(orig, false) {
+					if c.Common().StaticCallee() == fn {
+						for i, q := range fn.Params {
+							if q == prm && i < len(c.Common().Args) && derivesFromField(c.Common().Args[i], "steps", 0) {
+								fromSteps = true
+							}
+						}
+					}
+				}
+			}
+		}
 		if !fromSteps {
 			if l2, ok := x.(*ssa.UnOp); ok {
 				if al, ok := l2.X.(*ssa.Alloc); ok {
@@ -563,6 +716,7 @@ func c10Amalgamated(e *Env, rule string) {
 		r.Undecide(rule, key, "anchor function not found")
 		return
 	}
+	fn = ownerOfInvoke(fn, "Run")
 	inv := findInvokes(fn, "Run", false)
 	if len(inv) != 1 {
 		r.Undecide(rule, key, fmt.Sprintf("%d invocations of Run, expected 1", len(inv)))
